@@ -268,7 +268,8 @@ impl Language {
             Language::CxxHeader => "c++Header",
             Language::GenericHeader => "c/c++",
             Language::ObjectiveC => "objc",
-            Language::ObjectiveCxx | Language::ObjectiveCxxHeader => "objc++",
+            Language::ObjectiveCxx => "objc++",
+            Language::ObjectiveCxxHeader => "objc++Header",
             Language::Cuda => "cuda",
             Language::CudaFE => "cuda",
             Language::Ptx => "ptx",
